@@ -368,6 +368,69 @@ func zeroScenario(arity, n int) schk.Scenario {
 	}
 }
 
+// nilIfaceScenario: the result types are interface types and the one invocation returns NIL interfaces
+// (a nil error is the commonest result there is). Exactly once, every caller gets nil, no panic.
+func nilIfaceScenario(arity, n int) schk.Scenario {
+	type irec struct {
+		runs int
+		ok   []bool
+		done []bool
+	}
+	return schk.Scenario{
+		Name: fmt.Sprintf("Once%d[error,...]/%d-callers/the-invocation-returns-nil-interfaces", arity, n), Bound: -1, RaceBound: 1,
+		Body: func(s *vrt.Sched) any {
+			r := &irec{ok: make([]bool, n), done: make([]bool, n)}
+			var do func() bool
+			switch arity {
+			case 1:
+				o := new(sync2.Once1[error])
+				do = func() bool {
+					return o.Do(func() error { r.runs++; vrt.Yield("action", unsafe.Pointer(r), true); return nil }) == nil
+				}
+			case 2:
+				o := new(sync2.Once2[any, error])
+				do = func() bool {
+					a, b := o.Do(func() (any, error) { r.runs++; vrt.Yield("action", unsafe.Pointer(r), true); return nil, nil })
+					return a == nil && b == nil
+				}
+			default:
+				o := new(sync2.Once3[error, any, fmt.Stringer])
+				do = func() bool {
+					a, b, c := o.Do(func() (error, any, fmt.Stringer) {
+						r.runs++
+						vrt.Yield("action", unsafe.Pointer(r), true)
+						return nil, nil, nil
+					})
+					return a == nil && b == nil && c == nil
+				}
+			}
+			for i := 0; i < n; i++ {
+				i := i
+				s.Spawn(fmt.Sprintf("caller%d", i), func() { r.ok[i] = do() && do(); r.done[i] = true })
+			}
+			return r
+		},
+		Check: func(x *vrt.Exec, obs any) (*schk.Fail, string) {
+			r := obs.(*irec)
+			if x.Deadlock {
+				return nil, "abnormal"
+			}
+			if x.Panic != "" {
+				return schk.Failf("panic-on-nil-interface-result", "Do panicked although the action returned normally (nil interface results): %s", x.Panic), ""
+			}
+			if r.runs != 1 {
+				return schk.Failf("not-exactly-once", "the action ran %d times", r.runs), ""
+			}
+			for i := range r.ok {
+				if !r.done[i] || !r.ok[i] {
+					return schk.Failf("wrong-result", "caller %d did not get the nil interfaces the invocation returned", i), ""
+				}
+			}
+			return nil, "ok"
+		},
+	}
+}
+
 func main() {
 	r := ev.Start("C17")
 	var scs []schk.Scenario
@@ -388,6 +451,7 @@ func main() {
 	for arity := 1; arity <= 3; arity++ {
 		scs = append(scs, nilScenario(arity, 2), nilScenario(arity, 3))
 		scs = append(scs, zeroScenario(arity, 1), zeroScenario(arity, 2))
+		scs = append(scs, nilIfaceScenario(arity, 1), nilIfaceScenario(arity, 2))
 	}
 	// many Once values in use at the same time (state shared between distinct values)
 	scs = append(scs, chainScenario(1, 70, -1), chainScenario(1, 300, -1), chainScenario(2, 70, ev.Pick(r, 1, 2)), chainScenario(2, 2, -1), chainScenario(3, 2, 2))
